@@ -157,7 +157,10 @@ impl Storage for DiskCache {
                     .unwrap()
                     .get_or_init()?
                     .prepare_add(key, v.len() as u64)?;
-                f.as_file_mut().write_all(&v)?;
+                if let Err(e) = f.as_file_mut().write_all(&v) {
+                    lru.lock().unwrap().get().unwrap().abandon(f);
+                    return Err(e.into());
+                }
                 lru.lock().unwrap().get().unwrap().commit(f)?;
                 Ok(start.elapsed())
             })
